@@ -220,6 +220,12 @@ where
         .handshake_timeout
         .unwrap_or(Duration::from_secs(15));
 
+      // One deadline for the whole handshake: a peer that trickles bytes must not be able
+      // to restart the clock with every read.
+      let hs_deadline = self
+        .handshake_deadline
+        .unwrap_or_else(|| TokioInstant::now() + hs_timeout);
+
       'handshake: loop {
         if self.zmtp_engine.phase == ZmtpPhase::Data
           || self.zmtp_engine.phase == ZmtpPhase::Closed
@@ -228,8 +234,8 @@ where
           break 'handshake;
         }
 
-        let read_result = tokio::time::timeout(
-          hs_timeout,
+        let read_result = tokio::time::timeout_at(
+          hs_deadline,
           hs_read_half.read_buf(&mut self.handshake_read_buf),
         )
         .await;
